@@ -1539,7 +1539,8 @@ def driver_source(specs, status, src_root):
     """lean/FinamModel/DriverTr.lean: one case per translated function that does not read an object graph"""
     imports, cases = [], []
     for spec in specs:
-        if spec.get("heap") or ("slice" in spec and spec.get("group") != "Lifecycle") or not status.get(spec["lean"], {}).get("translated"):
+        if (spec.get("heap") or ("slice" in spec and spec.get("group") not in ("Lifecycle", "RunLoop"))
+                or not status.get(spec["lean"], {}).get("translated")):
             continue
         if spec.get("group") == "Lifecycle":
             n = (len(spec.get("fields", {})) + len([k for k in spec.get("params", {}) if k not in spec.get("ignore_params", [])])
@@ -1575,6 +1576,19 @@ def driver_source(specs, status, src_root):
                                ' (fun g => match g with | none => Except.error Err.other | some k => '
                                'if ((fromJ (argAt args 12)) : List Nat).contains k then Except.error Err.other '
                                'else Except.ok ((((fromJ (argAt args 13)) : List (Nat × Nat)).lookup k))) ' + me.replace("K", "14") + ")")
+            continue
+        if spec["lean"] == "run_loop":
+            # the world is a script: per round the table (time, FINISHED) of the time components before the update and the
+            # component `_update_recursive` answered with, then the table after the last update; the components the loop hands
+            # to `_update_recursive` are recorded
+            imports.append("import FinamModel.Translated.run_loop")
+            cases.append('  | "run_loop" => toJ ((Tr.run_loop (φ := List (List (Nat × (Int × Bool)) × Nat) × List Nat) '
+                         '((fromJ (argAt args 0)), []) (fromJ (argAt args 1)) (fromJ (argAt args 2)) '
+                         '(fun w m => match w.1 with | (tab, _) :: _ => ((tab.lookup m).map (·.1)).getD 0 | [] => 0) '
+                         '(fun w m => match w.1 with | (tab, _) :: _ => ((tab.lookup m).map (·.2)).getD false | [] => false) '
+                         '(fun w c => match w.1 with | (_, u) :: rest => if rest.isEmpty then Except.error Err.other '
+                         'else Except.ok (u, (rest, w.2 ++ [c])) | [] => Except.error Err.other) '
+                         '(fun _ _ => Except.ok ()) (fromJ (argAt args 3))).map (fun w => (w.2, w.1.length)))')
             continue
         if spec.get("group") == "GridMemo":
             imports.append(f"import FinamModel.Translated.{spec['lean']}")
